@@ -156,6 +156,7 @@ fn plan_inner(prop: &str, tier: &str) -> Option<Plan> {
             let bounds: Vec<(usize, usize, i8, usize)> = match (prop, tier) {
                 ("C06", "quick") => vec![(2, 3, 3, 1), (3, 4, 2, 16), (4, 3, 2, 16)],
                 ("C06", _) => vec![(2, 4, 3, 1), (3, 4, 3, 16), (4, 3, 2, 16)],
+                ("C07", "quick") => vec![(2, 4, 0, 1), (3, 4, 0, 16), (4, 3, 0, 8)],
                 (_, "quick") => vec![(2, 4, 0, 1), (3, 3, 0, 4), (4, 3, 0, 8)],
                 ("C08", _) | ("C07", _) => vec![(2, 5, 0, 2), (3, 4, 0, 16), (4, 3, 0, 8)],
                 (_, _) => vec![(2, 5, 0, 2), (3, 5, 0, 16), (4, 4, 0, 16)],
@@ -165,7 +166,7 @@ fn plan_inner(prop: &str, tier: &str) -> Option<Plan> {
                 for (n, l, vr, sh) in &bounds {
                     // undirected filters range over both orientations of every edge (4^L subsets):
                     // the two largest quick bounds of C06 are taken one edge smaller there
-                    let l = if prop == "C06" && tier == "quick" && f.contains("ungraph") && *n >= 3 { *l - 1 } else { *l };
+                    let l = if matches!(prop, "C06" | "C07") && tier == "quick" && f.contains("ungraph") && *n == 3 && *l == 4 { 3 } else if prop == "C06" && tier == "quick" && f.contains("ungraph") && *n >= 3 { *l - 1 } else { *l };
                     jobs.extend(sharded(prop, "gsweep", f, tier, json!({"n": n, "max_l": l, "val_range": vr}), *sh));
                 }
                 // one more edge on 4 nodes for the directed flavours (2^5 filter subsets; undirected would be 4^5)
@@ -275,7 +276,7 @@ fn plan_inner(prop: &str, tier: &str) -> Option<Plan> {
             Some(Plan {
                 jobs,
                 level: "fault_enumeration".into(),
-                rule: "for each of the four containers x {u8, String} keys x {JSON, CBOR}: (a) every schema-free document up to a size/depth bound over 7 atoms; (b) every valid document of every edge list on <=3 nodes up to the edge bound and every single structural fault of it at every position (drop / duplicate / swap / truncate / append / retype to 10 atom kinds / retarget to every declared and one undeclared key), fault pairs on the smallest seeds; (c) every byte prefix; (d) single-byte substitutions of the CBOR encodings and substitutions from the JSON structural alphabet; (e) large valid documents (cycle, fan-in of 20 nodes quick; chain, cycle, fan-out, fan-in, multi-edge of 17/24/33/40 nodes thorough) with every single structural fault and every byte prefix. Oracle: no panic / hang; Err, or Ok(graph) satisfying the invariants whose nodes (with a declared value) and edges (multiset) are contained in the schema-free reading of the document; Err whenever that reading shows an edge naming an undeclared key. nontrivial = every case except the plain valid documents".into(),
+                rule: "for each of the four containers x {u8, String} keys x {JSON, CBOR}: (a) every schema-free document up to a size/depth bound over 7 atoms; (b) every valid document of every edge list on <=3 nodes up to the edge bound and every single structural fault of it at every position (drop / duplicate / swap / truncate / append / retype to 10 atom kinds / retarget to every declared and one undeclared key), fault pairs on the smallest seeds; (c) every byte prefix; (d) single-byte substitutions of the CBOR encodings and substitutions from the JSON structural alphabet; (f) String-keyed documents whose keys are long mixed-width UTF-8 strings (character boundaries on odd / on even byte offsets), valid, every single fault, every prefix; (e) large valid documents (cycle, fan-in of 20 nodes quick; chain, cycle, fan-out, fan-in, multi-edge of 17/24/33/40 nodes thorough) with every single structural fault and every byte prefix. Oracle: no panic / hang; Err, or Ok(graph) satisfying the invariants whose nodes (with a declared value) and edges (multiset) are contained in the schema-free reading of the document; Err whenever that reading shows an edge naming an undeclared key. nontrivial = every case except the plain valid documents".into(),
                 bounds: json!({"quick": "synthetic size<=5 depth<=3; seeds (n,edges) (1,2),(2,2),(3,2); a third of byte values", "thorough": "synthetic size<=6 depth<=4; seeds (1,2),(2,3),(3,3); all 256 byte values"}),
                 exhaustive: true,
                 assumptions: vec![
